@@ -19,6 +19,7 @@ def check(rep):
     GR.rule_no_error_productions(ctx)
     ER.rule_none_is_error(ctx)
     GR.rule_grammar_agrees(ctx)
+    LR.rule_token_spelling(ctx, directions=("lexer<=doc",))
     ER.rule_skip_guard(ctx, rid="C06.SKIP-EXACT")
     ER.rule_commit_order(ctx, rid="C06.NO-ACCEPT-ON-FAILURE", parse_only=True)
     rep.assume("NOT claimed: an unterminated /* at end of input (sly ends tokenising in whatever state)")
